@@ -95,7 +95,9 @@ Two(xs, ys) == Cross2(xs, ys, LAMBDA x, y : <<x, y>>)
 Core2 == <<N1(cA), Child(<<SWild>>), I1(0), Desc(<<SName(cB)>>), Child(<<SName(cA), SIndex(1)>>), F1(T1(RelA)), F1(Cmp("==", RelA, Lit(JInt(1))))>>
 
 \* names outside ASCII that both notations can spell: the reported paths of all spellings are compared with each other, too
-OddNameSegs == <<N1(nC1b), N1(nC1), N1(nBmp), Desc(<<SName(nC1b)>>), Desc(<<SName(nC1)>>)>>
+nLS == <<97, 8232, 98>>   nPS == <<8233>>   nAmp == <<97, 38, 98>>   nZW == <<97, 8203>>   nBom == <<65279, 97>>      \* line / paragraph separator, &, zero-width space, BOM
+OddNameSegs == <<N1(nC1b), N1(nC1), N1(nBmp), Desc(<<SName(nC1b)>>), Desc(<<SName(nC1)>>), N1(nLS), N1(nPS), Desc(<<SName(nLS)>>), N1(nAmp), N1(nZW), N1(nBom),
+                 F1(LTest(FALSE, ERel(<<N1(nLS)>>))), F1(LCmp("==", RelA, ELit(JStr(nLS)))), F1(LCmp("!=", RelA, ELit(JStr(nAmp))))>>
 AstsC13 == << <<>> >> \o One(PlainSegs) \o One(FilterSegs) \o Two(Core2, Core2) \o One(OddNameSegs) \o << <<N1(nC1), N1(nC1b)>> >>
            \o << <<N1(cA), Desc(<<SWild>>), F1(LOr(<<T1(RelA), Cmp("<", RelB, Lit(JInt(100)))>>)), I1(0)>> >>
 AstsC06 == AstsC13 \o One(EscSegs) \o One(EscFilterSegs)
@@ -127,6 +129,6 @@ ProbeDocs == <<
   JArr(<<JObj(<<cA, cB>>, <<JInt(1), JInt(1)>>), JObj(<<cA>>, <<JStr(cA)>>), JObj(<<cA, cB>>, <<JInt(100), JStr(nAB)>>),
          JArr(<<JInt(0), JInt(1), JInt(2)>>), JObj(<<cB>>, <<JBool(TRUE)>>), JObj(<<cA>>, <<JNull>>), JObj(<<cA>>, <<F(1, 2)>>), JInt(1),
          JObj(<<cA>>, <<JInt(230)>>), JObj(<<cA>>, <<F(3, -1)>>), JObj(<<cA>>, <<F(23, 1)>>)>>),
-  JObj(<<nEmpty, nDigit, nUnder, cA, nC1b, nC1, nBmp>>, <<JInt(1), JArr(<<JInt(5)>>), JObj(<<cA>>, <<JObj(<<cA>>, <<JInt(1)>>)>>), JObj(<<cA, cB>>, <<JStr(nSpace), JStr(nEmpty)>>),
-                                                     JArr(<<JInt(1)>>), JObj(<<nC1b>>, <<JInt(2)>>), JInt(3)>>) >>
+  JObj(<<nEmpty, nDigit, nUnder, cA, nC1b, nLS, nC1, nBmp>>, <<JInt(1), JArr(<<JInt(5)>>), JObj(<<cA>>, <<JObj(<<cA>>, <<JInt(1)>>)>>), JObj(<<cA, cB>>, <<JStr(nSpace), JStr(nEmpty)>>),
+                                                     JArr(<<JInt(1)>>), JObj(<<cA, nLS>>, <<JStr(nLS), JInt(9)>>), JObj(<<nC1b>>, <<JInt(2)>>), JInt(3)>>) >>
 =============================================================================
